@@ -36,7 +36,7 @@ RtFails(e) ==
       img == WireImage(v)
       dir == DirOf(v.mtype)
   IN  (IF OkErr(e.merr) /\ (~ok \/ (OkErr(e.terr) /\ OkErr(e.uerr))) THEN <<>> ELSE <<"C09.total">>)
-   \o (IF valid /\ ~ok THEN <<"C01.accept">> ELSE <<>>)
+   \o (IF valid /\ ~ok THEN <<"C01.accept", "C06.frame">> ELSE <<>>)     \* no bytes at all for a frame the specification defines
    \o (IF valid /\ ok /\ e.bytes # exp THEN <<"C01.bytes", "C06.frame">> ELSE <<>>)
    \o (IF ok /\ (e.terr # "" \/ e.text # Base64(e.bytes)) THEN <<"C01.text">> ELSE <<>>)
    \o (IF valid /\ ok /\ (e.uerr # "" \/ ~Has(e, "un")) THEN <<"C01.back">>
